@@ -272,6 +272,23 @@ def _expand_closures(fn: ast.AST, skip_known: tuple[str, set[str]] | None = None
         a = st.args
         if skip_known is not None and f'{skip_known[0]}.<locals>.{st.name}' in skip_known[1]:
             continue        # a nested function the inventory knows
+        if a.args and not (a.posonlyargs or a.kwonlyargs or a.vararg or a.kwarg):
+            # calls written with keywords: the same arguments in positional order
+            pn_ = [x.arg for x in a.args]
+            for c in [n for n in ast.walk(fn) if isinstance(n, ast.Call) and isinstance(n.func, ast.Name) and n.func.id == st.name and n.keywords]:
+                if any(k.arg is None or k.arg not in pn_ for k in c.keywords) or any(isinstance(x, ast.Starred) for x in c.args):
+                    continue
+                given = dict(zip(pn_, c.args))
+                if any(k.arg in given for k in c.keywords):
+                    continue
+                given.update({k.arg: k.value for k in c.keywords})
+                # a contiguous prefix of the parameters must be given (the rest have defaults)
+                npre = 0
+                while npre < len(pn_) and pn_[npre] in given:
+                    npre += 1
+                if len(given) == npre:
+                    c.args = [given[p_] for p_ in pn_[:npre]]
+                    c.keywords = []
         if a.defaults and not (a.posonlyargs or a.kwonlyargs or a.vararg or a.kwarg):
             # a default is evaluated once, where the closure is defined: bind it to a local there and pass it explicitly
             calls_d = [n for n in ast.walk(fn) if isinstance(n, ast.Call) and isinstance(n.func, ast.Name) and n.func.id == st.name]
